@@ -98,7 +98,46 @@ var anyWord = regexp.MustCompile(`\bany\b`)
 // canonType: the printed form of a type with the alias `any` written as interface{} (types from contracts are built
 // with interface{}, types from the program may print the alias).
 func canonType(t types.Type) string {
-	return anyWord.ReplaceAllString(types.TypeString(t, nil), "interface{}")
+	return anyWord.ReplaceAllString(canonStr(t), "interface{}")
+}
+
+// canonStr: types.TypeString without the parameter and result names of function types (identical types, one text).
+func canonStr(t types.Type) string {
+	switch tt := types.Unalias(t).(type) {
+	case *types.Signature:
+		tup := func(tp *types.Tuple, variadic bool) string {
+			var ps []string
+			for i := 0; i < tp.Len(); i++ {
+				e := tp.At(i).Type()
+				if variadic && i == tp.Len()-1 {
+					if sl, ok := e.(*types.Slice); ok {
+						ps = append(ps, "..."+canonStr(sl.Elem()))
+						continue
+					}
+				}
+				ps = append(ps, canonStr(e))
+			}
+			return strings.Join(ps, ", ")
+		}
+		out := "func(" + tup(tt.Params(), tt.Variadic()) + ")"
+		switch tt.Results().Len() {
+		case 0:
+		case 1:
+			out += " " + canonStr(tt.Results().At(0).Type())
+		default:
+			out += " (" + tup(tt.Results(), false) + ")"
+		}
+		return out
+	case *types.Pointer:
+		return "*" + canonStr(tt.Elem())
+	case *types.Slice:
+		return "[]" + canonStr(tt.Elem())
+	case *types.Array:
+		return fmt.Sprintf("[%d]%s", tt.Len(), canonStr(tt.Elem()))
+	case *types.Map:
+		return "map[" + canonStr(tt.Key()) + "]" + canonStr(tt.Elem())
+	}
+	return types.TypeString(t, nil)
 }
 
 func (u *Universe) TypeID(t types.Type) int {
